@@ -128,6 +128,18 @@ DIRECTED = [
         {"op": "const", "d": 1, "c": F(120, -1, 100, "HalfAway")}, {"op": "withbase", "d": 2, "a": 1, "f": "dec"},
         {"op": "const", "d": 3, "c": F(12, -1, 10, "HalfAway")}, {"op": "const", "d": 4, "c": F(7, 3, 10, "Zero", 8)},
         {"op": "upbase", "d": 4, "a": 4}, {"op": "withbase", "d": 5, "a": 4}, {"op": "const", "d": 1, "c": F(7000, 0, 10, "Zero")}]},
+    # bases that are not square-free (16, 100): significands that are not divisible by the base but whose square / product is -
+    # the result must come back normalised (4^2 = 1 * 16^1) or == and the hash disagree with cmp and with the same value
+    # reached through a multiplication or a constant
+    {"pool": "F", "nr": 6, "steps": [
+        {"op": "const", "d": 1, "c": F(4, 0, 16, "Zero", 20)}, {"op": "sqr", "d": 2, "a": 1}, {"op": "mul", "d": 3, "a": 1, "b": 1, "f": "rr"},
+        {"op": "const", "d": 4, "c": F(1, 1, 16, "Zero", 20)}, {"op": "const", "d": 5, "c": F(0x2c, -1, 16, "HalfAway", 30)},
+        {"op": "sqr", "d": 6, "a": 5}, {"op": "mul", "d": 5, "a": 5, "b": 5, "f": "vv"}, {"op": "const", "d": 1, "c": F(8, 3, 16, "Up", 12)},
+        {"op": "sqr", "d": 1, "a": 1}, {"op": "const", "d": 3, "c": F(4, 7, 16, "Up", 12)}]},
+    {"pool": "F", "nr": 5, "steps": [
+        {"op": "const", "d": 1, "c": F(10, 0, 100, "HalfAway", 10)}, {"op": "sqr", "d": 2, "a": 1}, {"op": "const", "d": 3, "c": F(1, 1, 100, "HalfAway", 10)},
+        {"op": "mul", "d": 4, "a": 1, "b": 1, "f": "rv"}, {"op": "const", "d": 5, "c": F(50, -2, 100, "Zero", 6)}, {"op": "sqr", "d": 5, "a": 5},
+        {"op": "const", "d": 1, "c": F(25, -3, 100, "Zero", 6)}]},
     # rationals from floats: the denominator is a power of the base, the numerator shares factors with it
     {"pool": "Q", "nr": 6, "steps": [
         {"op": "fromfloat", "d": 1, "c": {"sig": I(5), "exp": -1, "base": 10}, "f": "R"}, {"op": "const", "d": 2, "c": Qc(1, 2, "R"), "f": "parts"},
